@@ -387,6 +387,17 @@ pub fn corpus() -> &'static Vec<Artefact> {
                 });
             }
         }
+        // the manifest `aiken new` writes (ProjectConfig::default + save)
+        {
+            let disk = RunDisk::new();
+            let name = aiken_project::package_name::PackageName { owner: "sim".into(), repo: "fresh".into() };
+            let cfg = ProjectConfig::default(&name);
+            if cfg.save(&disk.root).is_ok() {
+                if let Ok(t) = std::fs::read_to_string(disk.root.join("aiken.toml")) {
+                    arts.push(Artefact { kind: Kind::Toml, id: "aiken-new/aiken.toml".into(), bytes: t.into_bytes(), alt: None, hot: vec![] });
+                }
+            }
+        }
         for extra in ["examples/hello_world/aiken.toml", "examples/gift_card/aiken.toml"] {
             if let Ok(t) = std::fs::read_to_string(format!("{REPO_DIR}/{extra}")) {
                 arts.push(Artefact { kind: Kind::Toml, id: extra.into(), bytes: t.into_bytes(), alt: None, hot: vec![] });
@@ -702,6 +713,24 @@ fn gen_fault(rng: &mut Rng, a: &Artefact) -> Fault {
         }
         rng.usize_below(n)
     };
+    if a.kind.is_text() && rng.chance(1, 6) {
+        // The same fault kinds with positions aligned to a quoted string: its content lost,
+        // cut short, or written twice (a block boundary falling on a token boundary).
+        let quotes: Vec<usize> = a.bytes.iter().enumerate().filter(|(_, b)| **b == b'"').map(|(i, _)| i).collect();
+        if quotes.len() >= 2 {
+            let q = rng.usize_below(quotes.len() - 1);
+            let (open, close) = (quotes[q], quotes[q + 1]);
+            if close > open + 1 {
+                let len = close - open - 1;
+                return match rng.below(4) {
+                    0 => Fault::DelRange(open + 1, len),
+                    1 => Fault::DelRange(open + 2, len.saturating_sub(1).max(1)),
+                    2 => Fault::DupRange(open + 1, len),
+                    _ => Fault::ZeroRange(open + 1, len),
+                };
+            }
+        }
+    }
     if a.kind.is_text() && rng.chance(1, 4) {
         let lines = a.bytes.iter().filter(|b| **b == b'\n').count().max(1);
         let at = rng.usize_below(lines);
